@@ -213,6 +213,20 @@ def opaque_weights(ev):
     ev.summaries[cc + "get_fl11_weight"] = get_fl11_weight
 
 
+def semi_opaque_weights(ev):
+    """Keep get_weight / get_fl11_weight real (process switch, positivity guard, sum over bosons) but make
+    their three factors opaque."""
+    cc = "yadism.coefficient_functions.coupling_constants::CouplingConstants."
+    ev.summaries[cc + "leptonic_coupling"] = lambda ev_, self_, mode, t: A.opaque("lep", (mode, t))
+    ev.summaries[cc + "propagator_factor"] = lambda ev_, self_, mode, Q2: A.opaque("eta", (mode,))
+    ev.summaries[cc + "partonic_coupling"] = lambda ev_, self_, mode, pid, t, cc_mask=None: A.opaque(
+        "had", (mode, abs(S.num_norm(pid)), t) + ((cc_mask,) if cc_mask is not None else ())
+    )
+    ev.summaries[cc + "partonic_coupling_fl11"] = lambda ev_, self_, mode, pid, nf, t: A.opaque(
+        "hadfl11", (mode, abs(S.num_norm(pid)), S.num_norm(nf), t)
+    )
+
+
 def fold_runner(proj, cell, n_points=1, on_call=None, assume_valid_kin=True, extra_ext=None):
     """Fold Runner(theory, observables) for the cell. Returns (ev, runner ObjVal, theory, observables)."""
     ext = {
